@@ -771,6 +771,10 @@ func c18Child(c *Ctx) int {
 				continue
 			}
 			cs := raceCase{Opts: subsets[i], Workers: []int{1, 4, 16, 64}[rng.Intn(4)], Hits: c.Pick(300, 1500), Host: fmt.Sprintf("r%d-%d.verif.test", shard, i)}
+			if contains(cs.Opts, "nokeepalive") {
+				cs.Hits = c.Pick(60, 300) // one connection per hit: keep the number of sockets left in TIME_WAIT small
+			}
+			waitForPorts(run, 16000, 90*time.Second)
 			b, _ := json.Marshal(cs)
 			logCase(string(b))
 			runRaceCase(run, fd, port, port2, cs)
@@ -952,7 +956,7 @@ func runC18(c *Ctx) int {
 	c18Resolver(c, run)
 	c18CLI(c, run)
 	run.Floor("cli_race_attacks", int64(c.Pick(3, 6)))
-	run.Floor("cli_race_hits_ok", 500)
+	run.Floor("cli_race_hits_ok", 300)
 	run.Floor("dns_dial_calls", int64(c.Pick(40000, 2000000)))
 	run.Floor("address_coverage_windows_checked", int64(c.Pick(100, 5000)))
 	run.Floor("connect_to_histories", int64(c.Pick(200, 7000)))
